@@ -267,7 +267,7 @@ impl RecvHandler {
         expected_responses: Arc<RwLock<HashMap<SocketAddr, usize>>>,
     ) -> std::io::Result<(Self, mpsc::Receiver<RecvPacket>)> {
         let recv = Arc::new(UdpSocket::bind("127.0.0.1:0").await?);
-        let (handler, handler_recv) = mpsc::channel(256);
+        let (handler, handler_recv) = mpsc::channel(30);
         let (_exit_sender, exit) = oneshot::channel();
         Ok((
             RecvHandler {
